@@ -58,7 +58,8 @@ type instr struct {
 	groups map[*model.PushContext]*pushGroup
 	adds   map[*discovery.Resource]writeRec
 
-	win atomic.Pointer[window]
+	win        atomic.Pointer[window]
+	afterClear atomic.Pointer[func()]
 
 	windows            atomic.Int64
 	listsDelayed       atomic.Int64
@@ -149,11 +150,21 @@ func (c *obsCache) noteClear() {
 func (c *obsCache) Clear(s sets.Set[model.ConfigKey]) {
 	c.noteClear()
 	c.XdsCache.Clear(s)
+	c.in.cleared()
 }
 
 func (c *obsCache) ClearAll() {
 	c.noteClear()
 	c.XdsCache.ClearAll()
+	c.in.cleared()
+}
+
+// cleared runs after an invalidation by the discovery server has completed. Only the deterministic reproduction
+// (repro.go) installs a gate here, to park the caller in the gap between invalidation and snapshot publication.
+func (in *instr) cleared() {
+	if g := in.afterClear.Load(); g != nil {
+		(*g)()
+	}
 }
 
 func (c *obsCache) Add(entry model.XdsCacheEntry, req *model.PushRequest, value *discovery.Resource) {
@@ -213,6 +224,9 @@ func (in *instr) staleCause(rec writeRec, current *model.PushContext) (cause str
 		if l.After(g.clear) {
 			after++
 		}
+	}
+	if len(g.lists) == 0 {
+		return "", "" // nothing was observed of the snapshot computation: no attribution
 	}
 	if after > 0 {
 		return causeClearedBeforeCompute, "the discovery server invalidated the cache, then InitContext read the config store " + itoa(after) + " times, then the snapshot was published; the writer's Start lies " +
